@@ -163,11 +163,18 @@ def __find_number_of_decimals(value: float, error: float) -> int:
     def is_valid(number):
         return not m.isinf(number) and not m.isnan(number) and number != 0
 
+    def order_of(number):
+        # The numbers passed in are already rounded, and (in scientific notation) divided by a
+        # power of ten, so that a power of ten can come out a rounding error too low, such as
+        # 0.9999999999999999. Such a number has the order of magnitude of the power of ten.
+        result = m.floor(m.log10(abs(number)))
+        return result + 1 if abs(number) >= 10 ** (result + 1) * (1 - 1e-14) else result
+
     # Check if the current number of significant figures satisfy the settings
     if sig_fig_mode in [SigFigMode.AUTOMATIC, SigFigMode.ERROR]:
-        order = m.floor(m.log10(abs(error))) if is_valid(error) else m.floor(m.log10(abs(value)))
+        order = order_of(error) if is_valid(error) else order_of(value)
     else:
-        order = m.floor(m.log10(abs(value))) if is_valid(value) else m.floor(m.log10(abs(error)))
+        order = order_of(value) if is_valid(value) else order_of(error)
 
     number_of_decimals = - order + sig_fig_value - 1
     return number_of_decimals if number_of_decimals > 0 else 0
